@@ -34,7 +34,14 @@ build_ocaml() {
 build_harness() {
   cd "$ROOT/harness"
   cp /repo/Cargo.lock Cargo.lock.repo 2>/dev/null || true
-  cargo build --offline </dev/null 2>&1 | tail -3
+  # cargo's rustc probe has been seen to fail transiently under load: retry
+  for attempt in 1 2 3; do
+    cargo build --offline </dev/null > "$ROOT/_build/harness_build.log" 2>&1 && break
+    grep -q "to learn about target-specific information" "$ROOT/_build/harness_build.log" || break
+    sleep $attempt
+  done
+  tail -3 "$ROOT/_build/harness_build.log"
+  grep -q "Finished" "$ROOT/_build/harness_build.log" || { echo "harness build failed"; exit 1; }
 }
 case $what in
   coq) build_coq;;
